@@ -12,6 +12,9 @@ TRUSTED_BASE = [
     "extraction: ExtrOcamlBasic, ExtrOcamlString (bool, option, list, prod, unit, sumbool, ascii => char, "
     "string => char list); nat, N, Z stay Coq datatypes; OCaml driver ocaml/driver.ml; a sample of the requests of every "
     "correspondence is re-evaluated inside the kernel (vm_compute) and compared with the extracted program's answers",
+    "hand-written models tied to the code by differential comparison (sampled, every run): compile / run (every rendering), "
+    "the API models coq/Model/Api.v and coq/Model/Ctor.v (every recorded call: receiver, arguments, result, all fields); WITH and "
+    "CASE builder states travel as the dump of w.Select() / b.End()",
     "Go standard library as specified: regexp (RE2 semantics), strconv, strings, sort, errors, unicode tables",
     "formalisation of PostgreSQL's lexer / grammar in coq/Pg (written from scan.l, gram.y and the manual)",
     "python orchestration lib/qrbverif (diffing, classification, evidence)",
